@@ -244,6 +244,11 @@ pub fn run(tier: Tier) -> i32 {
         probe(&mut cases, &mut meta, "nesting-after-semicolon-char-literal", n, format!(".db ';', {}1{}\n", "(".repeat(n), ")".repeat(n)));
         probe(&mut cases, &mut meta, "nesting-after-quote-char-literal", n, format!(".db '\"', {}1{}\n", "(".repeat(n), ")".repeat(n)));
         probe(&mut cases, &mut meta, "nesting-after-string-with-semicolon", n, format!(".db \"a;b\", {}1{}\n", "(".repeat(n), ")".repeat(n)));
+        probe(&mut cases, &mut meta, "nesting-after-string-ending-in-backslash", n, format!(".db \"C:\\TEMP\\\", {}1{}\n", "(".repeat(n), ")".repeat(n)));
+        probe(&mut cases, &mut meta, "nesting-after-string-with-apostrophe", n, format!(".db \"it's\", {}1{}\n", "(".repeat(n), ")".repeat(n)));
+        probe(&mut cases, &mut meta, "nesting-after-string-with-comment-opener", n, format!(".db \"a/*b\", {}1\n", "-".repeat(n)));
+        probe(&mut cases, &mut meta, "nesting-after-backslash-char-literal", n, format!(".db '\\', {}1{}\n", "(".repeat(n), ")".repeat(n)));
+        probe(&mut cases, &mut meta, "nesting-after-two-strings", n, format!(".db \"a\", \"b\\\", \"c\", {}1{}\n", "(".repeat(n), ")".repeat(n)));
         probe(&mut cases, &mut meta, "nesting-after-slash-slash-in-string", n, format!(".db \"a//b\", {}1{}\n", "-".repeat(n), ""));
         probe(&mut cases, &mut meta, "nesting-in-skipped-branch", n, format!(".if 0\n.db {}1{}\n.endif\nnop\n", "(".repeat(n), ")".repeat(n)));
         probe(&mut cases, &mut meta, "nesting-in-skipped-branch-after-char-literal", n, format!(".if 0\n.db ';', {}1{}\n.endif\nnop\n", "(".repeat(n), ")".repeat(n)));
